@@ -143,6 +143,7 @@ fn strat(t: Tier) -> proptest::strategy::BoxedStrategy<FragCase> {
 
 pub fn def() -> PropertyDef {
     PropertyDef {
+        fuzz_targets: &["c10_frag"],
         id: "C11",
         level: "exploration",
         rule: "non-decreasing DTS sequences (constant and variable spacing, non-zero start, equal DTS), PTS = DTS + signed offsets, random flush \
